@@ -135,8 +135,23 @@ def build_family(c, P):
     return stream, 'tmpl%d%s' % (len(ts[k]), bcls)
 
 
+def _earlier_connection(c, L, P):
+    """an EARLIER connection in the same process, on its own WebSocket object and socket (solver-chosen ending): what it
+    left behind must not influence the connection that is checked"""
+    opts = P['earlier']
+    hx = opts[c.choose(len(opts), 'earlier')]
+    w0 = new_world()
+    w0.default_script = HsThenCuts(w0, hconn.server_stream(list(bytes.fromhex(hx))), 'one', end='eof')
+    ws0 = L.WebSocket('ws://example.com/')
+    rec0 = hconn.drive(w0, ws0, dict(poll=1e9, ping_rate=0, ping_timeout=None, close_timeout=None))
+    if rec0.budget is not None:
+        raise EngineLimit('loop budget in the earlier connection')
+    return ':earlier-' + (hx or 'none')
+
+
 def run_recv(c, P):
     L = lomond()
+    ecls = _earlier_connection(c, L, P) if P.get('earlier') else ''
     w = new_world()
     tcls = None
     if P.get('family'):
@@ -188,8 +203,8 @@ def run_recv(c, P):
     cls, ob = hconn.check_receive(c, w, rec, stream, P['tags'], auto_pong=auto_pong,
                                   bytewise_failfast=True, client_closed=bool(P.get('app_close_at_ready')))
     names = rec.names()
-    if tcls:
-        cls.add(tcls)
+    if tcls or ecls:
+        cls.add((tcls or '') + ecls)
     return {'cls': sorted(cls) or ['_plain'], 'sample': {'events': names[3:]},
             'observe': {'events': names, 'wire': wire_summary(w)}}
 
